@@ -21,6 +21,17 @@ func main() {
 		os.Exit(runner.ReplayMain(os.Args[2], quiet))
 	case "check":
 		os.Exit(runner.CheckMain(os.Args[2], os.Args[3]))
+	case "genstats":
+		runs, blocks := 6, 30
+		if len(os.Args) > 3 {
+			fmt.Sscanf(os.Args[3], "%d", &runs)
+		}
+		if len(os.Args) > 4 {
+			fmt.Sscanf(os.Args[4], "%d", &blocks)
+		}
+		genStats(os.Args[2], runs, blocks)
+	case "dumpkeys":
+		dumpKeys(12345)
 	default:
 		fmt.Fprintln(os.Stderr, "unknown command", os.Args[1])
 		os.Exit(2)
